@@ -137,6 +137,73 @@ def check_taint(c, f):
     c.need(n_sinks >= 1, '%s: no delivery sink found' % f.qual)
 
 
+def module_level_names(module):
+    out = set()
+    for st in module.tree.body:
+        if isinstance(st, (ast.Assign, ast.AugAssign, ast.AnnAssign)):
+            out.update(assigned_names(st))
+    return out
+
+
+def coder_freshness(repo, fi, expr, which, index=None, depth=0):
+    """('fresh', factory-call) | ('shared', reason) | ('unknown', reason) for the value
+    stored as the decoder/encoder.  *index*: element of a returned tuple."""
+    factory = 'codecs.getincremental%s' % which
+    if depth > 3:
+        return 'unknown', 'helper chain too deep'
+    if isinstance(expr, ast.Tuple) and index is not None and index < len(expr.elts):
+        return coder_freshness(repo, fi, expr.elts[index], which, None, depth)
+    if isinstance(expr, ast.Call) and isinstance(expr.func, ast.Call) and dotted(expr.func.func) == factory:
+        return 'fresh', expr
+    if isinstance(expr, ast.Call) and dotted(expr.func) == '_NullCoder':
+        return 'fresh', expr
+    if isinstance(expr, ast.Name):
+        # local assigned in fi?
+        defs = [n for n in iter_nodes(fi.node) if isinstance(n, ast.Assign) and expr.id in assigned_names(n)]
+        if not defs:
+            if expr.id in module_level_names(fi.module):
+                return 'shared', 'module-level object %s is shared by every spawn instance' % expr.id
+            return 'unknown', 'origin of %s not found' % expr.id
+        res = [coder_freshness(repo, fi, d.value, which, index, depth) for d in defs]
+        for r in res:
+            if r[0] != 'fresh':
+                return r
+        return res[0]
+    if isinstance(expr, ast.Subscript):
+        base = expr.value
+        if isinstance(base, ast.Name) and base.id not in fi.params and base.id not in \
+                [n for d in iter_nodes(fi.node) if isinstance(d, ast.Assign) for n in assigned_names(d)]:
+            return 'shared', 'taken from the module-level container %s: one stateful codec object serves every spawn ' \
+                             'with the same settings, so the undecoded tail of one stream leaks into another' % base.id
+        if isinstance(base, ast.Attribute):
+            return 'shared', 'taken from a container attribute %s' % norm(base)
+        return coder_freshness(repo, fi, base, which, index, depth)
+    if isinstance(expr, ast.Call):
+        from ..effects import resolve_call
+        tg = resolve_call(repo, fi, expr)
+        last = callee_last(expr)
+        if last in ('get', 'setdefault') and isinstance(expr.func, ast.Attribute):
+            b = expr.func.value
+            local = [n2 for d in iter_nodes(fi.node) if isinstance(d, ast.Assign) for n2 in assigned_names(d)]
+            if isinstance(b, ast.Name) and b.id not in local and b.id not in fi.params:
+                return 'shared', 'looked up in the container %s that outlives the constructor call' % b.id
+        if not tg:
+            return 'unknown', 'cannot resolve %s' % norm(expr.func)
+        for t in tg:
+            rets = [n for n in iter_nodes(t.node) if isinstance(n, ast.Return) and n.value is not None]
+            if not rets:
+                return 'unknown', '%s returns nothing' % t.qual
+            for r in rets:
+                k, why = coder_freshness(repo, t, r.value, which, index, depth + 1)
+                if k != 'fresh':
+                    return k, '%s (in %s)' % (why, t.qual)
+            # decorated with a cache?
+            if any('cache' in src(d) for d in t.node.decorator_list):
+                return 'shared', '%s is memoised: the same codec object is handed to every caller' % t.qual
+        return 'fresh', expr
+    return 'unknown', 'expression form %s' % norm(expr)
+
+
 def check_coders(c, repo, units):
     # creation sites
     for attr, factory in (('_decoder', 'codecs.getincrementaldecoder'), ('_encoder', 'codecs.getincrementalencoder')):
@@ -156,14 +223,33 @@ def check_coders(c, repo, units):
                 '%s is created only in SpawnBase.__init__ (once per mode) and never replaced afterwards: the decoder state '
                 'must survive from one read to the next' % attr,
                 witness='assignment sites: %s' % ['%s L%d' % (f.qual, n.lineno) for f, n in sites], kind='ast', tag='own-' + attr)
-        # the text-mode creation uses the factory with the codec_errors policy
+        # the text-mode creation: a fresh incremental coder per spawn object, built with the configured policy
         init = repo.func('spawnbase:SpawnBase.__init__')
-        mk = [n for f, n in sites if isinstance(n.value, ast.Call) and isinstance(n.value.func, ast.Call)
-              and dotted(n.value.func.func) == factory]
-        ok = len(mk) == 1 and len(mk[0].value.func.args) == 1 and is_name(mk[0].value.func.args[0], 'encoding') \
-            and len(mk[0].value.args) == 1 and is_name(mk[0].value.args[0], 'codec_errors')
-        c.check(ok, init, mk[0] if mk else None, '%s = %s(encoding)(codec_errors): the configured encoding and error policy' % (attr, factory),
-                witness=norm(mk[0]) if mk else 'not found', kind='ast', tag='factory-' + attr)
+        which = 'decoder' if attr == '_decoder' else 'encoder'
+        for f, n in sites:
+            if f is not init:
+                continue
+            tgt = n.targets[0]
+            idx = None
+            if isinstance(tgt, (ast.Tuple, ast.List)):
+                idx = [i for i, x in enumerate(tgt.elts) if isinstance(x, ast.Attribute) and x.attr == attr][0]
+            elif len(n.targets) > 1:
+                idx = None
+            kind, info = coder_freshness(repo, f, n.value, which, idx)
+            if kind == 'unknown':
+                raise AnalysisError('C07-D2: cannot determine how %s is created: %s' % (attr, info))
+            if kind == 'shared':
+                c.bad(f, n, '%s is not a fresh object per spawn: %s' % (attr, info), kind='flow', tag='fresh-' + attr + ':' + norm(n.value)[:30])
+                continue
+            call = info
+            if dotted(call.func) == '_NullCoder':
+                c.ok(f, n, 'bytes mode: stateless pass-through coder', kind='flow', tag='fresh-' + attr + ':null')
+                continue
+            enc_ok = len(call.func.args) == 1 and (is_name(call.func.args[0], 'encoding') or norm(call.func.args[0]) in ('self.encoding',)
+                                                   or isinstance(call.func.args[0], ast.Name))
+            err_ok = len(call.args) == 1 and not isinstance(call.args[0], ast.Constant)
+            c.check(enc_ok and err_ok, f, n, '%s is a fresh codecs.getincremental%s(<encoding>)(<error policy>) object per spawn' % (attr, which),
+                    witness=norm(call), kind='flow', tag='fresh-' + attr + ':text')
     # every decode / encode call on the coders: final never True
     n_calls = 0
     for f in repo.package_funcs():
@@ -199,7 +285,7 @@ def check_mode_selection(c, repo):
             for n in ast.walk(s):
                 if isinstance(n, ast.Assign):
                     for t in n.targets:
-                        tg = [t]
+                        tg = list(t.elts) if isinstance(t, (ast.Tuple, ast.List)) else [t]
                         for x in tg:
                             if isinstance(x, ast.Attribute) and x.attr == attr:
                                 out.append(n)
@@ -211,8 +297,8 @@ def check_mode_selection(c, repo):
     bd = assigns(bytes_body, '_decoder')
     c.check(len(bd) == 1 and norm(bd[0].value) == '_NullCoder()', f, bd[0] if bd else node, 'bytes mode uses the pass-through coder', kind='ast', tag='bytes-coder')
     td = assigns(text_body, '_decoder')
-    c.check(len(td) == 1 and 'getincrementaldecoder' in norm(td[0].value), f, td[0] if td else node,
-            'text mode uses an incremental decoder', kind='ast', tag='text-coder')
+    c.check(len(td) == 1 and '_NullCoder' not in norm(td[0].value), f, td[0] if td else node,
+            'text mode does not use the pass-through coder', kind='ast', tag='text-coder')
     st = assigns(text_body, 'string_type') + assigns(bytes_body, 'string_type')
     c.check(len(st) == 2, f, node, 'string_type is set in both modes', kind='ast', tag='string-type')
 
@@ -230,9 +316,13 @@ MUTANTS = [
     ('nullcoder-strips', 'spawnbase', "    def decode(b, final=False):\n        return b", "    def decode(b, final=False):\n        return b.rstrip(b'\\x00')", 'D3'),
     ('log-raw-return-text', 'spawnbase', "        s = self._decoder.decode(s, final=False)\n        self._log(s, 'read')\n        return s", "        self._log(s, 'read')\n        s = self._decoder.decode(s, final=False)\n        return s", 'D1'),
     ('decoder-reset-on-eof', 'spawnbase', "            self.flag_eof = True\n            raise EOF('End Of File (EOF). Empty string style platform.')", "            self.flag_eof = True\n            self._decoder = _NullCoder()\n            raise EOF('End Of File (EOF). Empty string style platform.')", 'D2'),
+    ('coders-cached', 'spawnbase', "            self._encoder = codecs.getincrementalencoder(encoding)(codec_errors)\n            self._decoder = codecs.getincrementaldecoder(encoding)(codec_errors)\n",
+     "            self._encoder, self._decoder = _CODECS.setdefault((encoding, codec_errors), (codecs.getincrementalencoder(encoding)(codec_errors), codecs.getincrementaldecoder(encoding)(codec_errors)))\n", 'D2'),
     ('text-mode-bytesio', 'spawnbase', "            self.buffer_type = StringIO", "            self.buffer_type = BytesIO", 'D4'),
 ]
 PRESERVING = [
+    ('coders-tuple-assign', 'spawnbase', "            self._encoder = codecs.getincrementalencoder(encoding)(codec_errors)\n            self._decoder = codecs.getincrementaldecoder(encoding)(codec_errors)\n",
+     "            self._encoder, self._decoder = (codecs.getincrementalencoder(encoding)(codec_errors),\n                                            codecs.getincrementaldecoder(encoding)(codec_errors))\n"),
     ('decode-no-kw', 'spawnbase', "        s = self._decoder.decode(s, final=False)\n        self._log(s, 'read')", "        s = self._decoder.decode(s)\n        self._log(s, 'read')"),
     ('rename-var', 'socket_pexpect', "                s = self._decoder.decode(s, final=False)\n                self._log(s, 'read')\n                return s", "                text = self._decoder.decode(s, final=False)\n                self._log(text, 'read')\n                return text"),
 ]
